@@ -172,6 +172,18 @@ class HierDictDocument(DictDocument):
                                                     self.VALID_UNICODE_SOURCES):
             raise ValidationError([key, inst])
 
+        # a container where a plain value is declared, or the other way around.
+        elif issubclass(cls, (Any, AnyDict, File)):
+            pass
+
+        elif issubclass(cls, ComplexModelBase):
+            if inst is not None and not isinstance(inst, (dict, list, tuple)):
+                raise ValidationError([key, inst])
+
+        elif isinstance(inst, dict) or (isinstance(inst, (list, tuple))
+                                          and not issubclass(cls, ByteArray)):
+            raise ValidationError([key, inst])
+
     def _from_dict_value(self, ctx, key, cls, inst, validator):
         if validator is self.SOFT_VALIDATION:
             self.validate(key, cls, inst)
@@ -359,6 +371,10 @@ class HierDictDocument(DictDocument):
                 subinst = getattr(inst, k, None)
                 if subinst is None:
                     subinst = []
+
+                if not isinstance(v, (list, tuple)):
+                    raise ValidationError([k, v],
+                                       "%r: Need a sequence of values for %r")
 
                 for a in v:
                     subinst.append(
